@@ -70,11 +70,18 @@ fn hash_ipv4_flow(ip_packet: &[u8], num_workers: usize) -> usize {
     let src_port = u16::from_be_bytes([tcp_header[0], tcp_header[1]]);
     let dst_port = u16::from_be_bytes([tcp_header[2], tcp_header[3]]);
 
+    // Order the endpoints so that both directions of a connection select the same worker
+    let (first, second) = if (src_ip, src_port) <= (dst_ip, dst_port) {
+        ((src_ip, src_port), (dst_ip, dst_port))
+    } else {
+        ((dst_ip, dst_port), (src_ip, src_port))
+    };
+
     let mut hasher = DefaultHasher::new();
-    src_ip.hash(&mut hasher);
-    dst_ip.hash(&mut hasher);
-    src_port.hash(&mut hasher);
-    dst_port.hash(&mut hasher);
+    first.0.hash(&mut hasher);
+    second.0.hash(&mut hasher);
+    first.1.hash(&mut hasher);
+    second.1.hash(&mut hasher);
 
     (hasher.finish() as usize)
         .checked_rem(num_workers)
@@ -108,11 +115,18 @@ fn hash_ipv6_flow(ip_packet: &[u8], num_workers: usize) -> usize {
     let src_port = u16::from_be_bytes([tcp_header[0], tcp_header[1]]);
     let dst_port = u16::from_be_bytes([tcp_header[2], tcp_header[3]]);
 
+    // Order the endpoints so that both directions of a connection select the same worker
+    let (first, second) = if (src_ip, src_port) <= (dst_ip, dst_port) {
+        ((src_ip, src_port), (dst_ip, dst_port))
+    } else {
+        ((dst_ip, dst_port), (src_ip, src_port))
+    };
+
     let mut hasher = DefaultHasher::new();
-    src_ip.hash(&mut hasher);
-    dst_ip.hash(&mut hasher);
-    src_port.hash(&mut hasher);
-    dst_port.hash(&mut hasher);
+    first.0.hash(&mut hasher);
+    second.0.hash(&mut hasher);
+    first.1.hash(&mut hasher);
+    second.1.hash(&mut hasher);
 
     (hasher.finish() as usize)
         .checked_rem(num_workers)
